@@ -107,6 +107,10 @@ func (f *FieldSpec) GoType() reflect.Type {
 		return reflect.TypeOf((*string)(nil))
 	case "enumA":
 		return reflect.TypeOf(EnumA(0))
+	case "void":
+		// a resolver without a result value (only an optional error): the field is a Boolean
+		// that is always true
+		return reflect.TypeOf(true)
 	case "listint":
 		return reflect.TypeOf([]int64(nil))
 	case "obj":
@@ -173,8 +177,13 @@ func (s *Spec) Compute(typ string, id int64, f *FieldSpec, a ArgVal) reflect.Val
 		return reflect.ValueOf(sp(fmt.Sprintf("p%d", hv%1000)))
 	case "enumA":
 		return reflect.ValueOf(EnumA(hv % 3))
+	case "void":
+		return reflect.ValueOf(true)
 	case "listint":
 		n := int((hv >> 4) % uint64(f.MaxLen+1))
+		if n == 0 && (hv>>20)%2 == 0 {
+			return reflect.Zero(f.GoType()) // an empty list as a nil slice
+		}
 		out := make([]int64, 0, n)
 		for i := 0; i < n; i++ {
 			out = append(out, int64(h(hv, i)%50))
@@ -189,6 +198,9 @@ func (s *Spec) Compute(typ string, id int64, f *FieldSpec, a ArgVal) reflect.Val
 		return reflect.ValueOf(s.mk(f.Target, int64((hv>>8)%uint64(s.NIds))))
 	case "listobj", "listpobj":
 		n := int((hv >> 4) % uint64(f.MaxLen+1))
+		if n == 0 && (hv>>20)%2 == 0 {
+			return reflect.Zero(f.GoType()) // an empty list as a nil slice
+		}
 		out := reflect.MakeSlice(f.GoType(), 0, n)
 		for i := 0; i < n; i++ {
 			hi := h(hv, i)
@@ -209,6 +221,9 @@ func (s *Spec) Compute(typ string, id int64, f *FieldSpec, a ArgVal) reflect.Val
 		return s.mkUnion(f.Target, hv)
 	case "listunion":
 		n := int((hv >> 4) % uint64(f.MaxLen+1))
+		if n == 0 && (hv>>20)%2 == 0 {
+			return reflect.Zero(f.GoType()) // an empty list as a nil slice
+		}
 		out := reflect.MakeSlice(f.GoType(), 0, n)
 		for i := 0; i < n; i++ {
 			hi := h(hv, i)
@@ -223,7 +238,7 @@ func (s *Spec) Compute(typ string, id int64, f *FieldSpec, a ArgVal) reflect.Val
 	panic("bad ret")
 }
 
-var retKinds = []string{"int64", "string", "pstring", "enumA", "listint", "obj", "pobj", "pobj", "listobj", "listpobj", "listpobj", "union", "listunion"}
+var retKinds = []string{"int64", "string", "pstring", "enumA", "void", "listint", "obj", "pobj", "pobj", "listobj", "listpobj", "listpobj", "union", "listunion"}
 var objNames = []string{"O1", "O2", "O3", "O4"}
 var unionNames = []string{"U1", "U2"}
 
